@@ -79,3 +79,17 @@ package smx509
 //@   loop 1 decreases len(signatureAlgorithmDetails) - rangeindex
 //@   heapnonnil
 //@   modifies nothing
+
+// chain building: a candidate parent extends a chain only after the child's signature verified under
+// the candidate's key (CheckSignatureFrom) and the candidate passed isValid for its role, and the
+// pool's constraint - in that order
+//@ func (*Certificate).buildChains$1 property C15 nooverflow
+//@   requires candidate.cert != nil
+//@   bind after call CheckSignatureFrom#1: SIGOK := ite(isnil(result), 1, 0)
+//@   bind after call isValid#1: VALID := ite(isnil(result), 1, 0)
+//@   assert before call CheckSignatureFrom#1: sameobj(arg1, candidate.cert)
+//@   assert before call isValid#1: sameobj(arg0, candidate.cert) && arg1 == certType && SIGOK == 1
+//@   assert before call appendToFreshChain#1: SIGOK == 1 && VALID == 1 && sameobj(arg1, candidate.cert)
+//@   assert before call appendToFreshChain#2: SIGOK == 1 && VALID == 1 && sameobj(arg1, candidate.cert)
+//@   heapnonnil
+//@   modifies everything
